@@ -33,6 +33,7 @@ type Core struct {
 	HeldReload bool
 	HeldSub    bool // GetStateChan blocks until released
 	HeldPoll   bool // IsRunning() blocks until the director supplies the answer
+	ErrOnStop  *RunResult // when set, an unheld Run returns this (a real error) once Stop() was called
 
 	mu        sync.Mutex
 	state     string
@@ -92,6 +93,10 @@ func (c *Core) Run(ctx context.Context) error {
 		c.emitRet(r)
 		return r.Err
 	case <-c.stopCh:
+		if c.ErrOnStop != nil {
+			c.emitRet(*c.ErrOnStop)
+			return c.ErrOnStop.Err
+		}
 		c.emitRet(RunResult{})
 		return nil
 	case <-ctx.Done():
